@@ -303,7 +303,7 @@ impl<C: MlsConfig, E: ExternalMlsConfig + Clone> World<C, E> {
         match r {
             ReceivedMessage::ApplicationMessage(a) => json!({"kind": "app", "sender": a.sender_index, "data": hex::encode(a.data()), "aad": hex::encode(&a.authenticated_data)}),
             ReceivedMessage::Commit(c) => Self::describe_commit(c),
-            ReceivedMessage::Proposal(p) => json!({"kind": "proposal", "ptype": prop_kind(&p.proposal), "sender": format!("{:?}", p.sender)}),
+            ReceivedMessage::Proposal(p) => json!({"kind": "proposal", "ptype": prop_kind(&p.proposal), "sender": format!("{:?}", p.sender), "aad": hex::encode(&p.authenticated_data)}),
             ReceivedMessage::GroupInfo(_) => json!({"kind": "group_info"}),
             ReceivedMessage::Welcome => json!({"kind": "welcome"}),
             ReceivedMessage::KeyPackage(_) => json!({"kind": "key_package"}),
@@ -398,6 +398,14 @@ impl<C: MlsConfig, E: ExternalMlsConfig + Clone> World<C, E> {
                         mls!(grp!().propose_add(kp, aad))
                     }
                     "update" => mls!(grp!().propose_update(aad)),
+                    "update_id" => {
+                        // same basic identity, NEW signature key (the signer changes when the update is committed)
+                        use mls_rs_core::crypto::{CipherSuiteProvider, CryptoProvider};
+                        let cs = mls_rs_crypto_openssl::OpensslCryptoProvider::default().cipher_suite_provider(self.suite).ok_or("nosuite")?;
+                        let (sk, pk) = cs.signature_key_generate().map_err(|e| format!("{e:?}"))?;
+                        let ident = SigningIdentity::new(BasicCredential::new(who.as_bytes().to_vec()).into_credential(), pk);
+                        mls!(grp!().propose_update_with_identity(sk, ident, aad))
+                    }
                     "remove" => {
                         let idx = match op["name"].as_str() {
                             Some(n) => self.index_of(&who, n).ok_or("NoSuchMemberName")?,
@@ -527,6 +535,200 @@ impl<C: MlsConfig, E: ExternalMlsConfig + Clone> World<C, E> {
                 grp!().clear_pending_commit();
                 Ok(json!({}))
             }
+            "sweep" => {
+                // Systematic corruption of one stored message / tree, every variant processed by a
+                // CLONE of the target: never a panic, never acceptance, state unchanged on error,
+                // the genuine message still accepted afterwards (sampled).
+                use std::panic::{catch_unwind, AssertUnwindSafe};
+                let key = op["msg"].as_str().unwrap_or("").to_string();
+                let genuine = self.msgs.get(&key).or_else(|| self.trees.get(&key)).ok_or("no message")?.clone();
+                let other = op["other"].as_str().and_then(|k| self.msgs.get(k).or_else(|| self.trees.get(k))).cloned();
+                let kind = op["kind"].as_str().unwrap_or("bits").to_string();
+                let stride = op["stride"].as_u64().unwrap_or(1).max(1) as usize;
+                let genuine_every = op["genuine_every"].as_u64().unwrap_or(16).max(1) as usize;
+                let target = op["target"].as_str().unwrap_or("member").to_string();
+                let mut variants: Vec<(String, Vec<u8>)> = vec![];
+                match kind.as_str() {
+                    "bits" => {
+                        let mut bit = op["offset"].as_u64().unwrap_or(0) as usize;
+                        while bit < genuine.len() * 8 {
+                            let mut b = genuine.clone();
+                            b[bit / 8] ^= 1 << (bit % 8);
+                            variants.push((format!("flip{bit}"), b));
+                            bit += stride;
+                        }
+                    }
+                    "trunc" => {
+                        let mut l = 0;
+                        while l < genuine.len() {
+                            variants.push((format!("trunc{l}"), genuine[..l].to_vec()));
+                            l += stride;
+                        }
+                        let mut b = genuine.clone();
+                        b.push(0);
+                        variants.push(("append0".into(), b));
+                    }
+                    "splice" => {
+                        // ranges of the other message (same offsets, and end-aligned) written over this one
+                        if let Some(o) = &other {
+                            let n = genuine.len().min(o.len());
+                            let mut st = op["seed"].as_u64().unwrap_or(1).wrapping_mul(0x9E3779B97F4A7C15) | 1;
+                            let mut next = |m: usize| { st ^= st << 13; st ^= st >> 7; st ^= st << 17; (st as usize) % m.max(1) };
+                            let count = op["count"].as_u64().unwrap_or(200) as usize;
+                            for _ in 0..count {
+                                let a = next(n);
+                                let len = 1 + next((n - a).min(96));
+                                let mut b = genuine.clone();
+                                b[a..a + len].copy_from_slice(&o[a..a + len]);
+                                if b != genuine {
+                                    variants.push((format!("splice{a}+{len}"), b));
+                                }
+                                // end-aligned (signatures and tags sit at the end)
+                                let mut b = genuine.clone();
+                                let (gl, ol) = (genuine.len(), o.len());
+                                if len <= gl && len <= ol && a + len <= gl.min(ol) {
+                                    b[gl - a - len..gl - a].copy_from_slice(&o[ol - a - len..ol - a]);
+                                    if b != genuine {
+                                        variants.push((format!("splice_end{a}+{len}"), b));
+                                    }
+                                }
+                            }
+                            variants.push(("whole_other".into(), o.clone()));
+                        }
+                    }
+                    _ => {}
+                }
+                let mut errors: BTreeMap<String, u64> = BTreeMap::new();
+                let (mut accepted, mut panics, mut changed, mut refused) = (vec![], vec![], vec![], vec![]);
+                let mut genuine_ok = 0u64;
+                let total = variants.len();
+                match target.as_str() {
+                    "member" => {
+                        let base = self.members.get(&who).and_then(|m| m.group.clone()).ok_or("NoGroup")?;
+                        let snap0 = mls!(base.verif_snapshot());
+                        let gmsg = MlsMessage::from_bytes(&genuine).map_err(|e| format!("decode:{}", err_name(&e)))?;
+                        // what the genuine message does (for the same-effect comparison)
+                        let mut gg = base.clone();
+                        let genuine_result = gg.process_incoming_message(gmsg.clone()).map(|_| gg.verif_snapshot().ok());
+                        for (vi, (name, bytes)) in variants.iter().enumerate() {
+                            let m = match MlsMessage::from_bytes(bytes) {
+                                Ok(m) => m,
+                                Err(_) => { *errors.entry("decode".into()).or_default() += 1; continue; }
+                            };
+                            let mut g = base.clone();
+                            let r = catch_unwind(AssertUnwindSafe(|| g.process_incoming_message(m)));
+                            match r {
+                                Err(_) => panics.push(json!(name)),
+                                Ok(Ok(_)) => {
+                                    let same = matches!(&genuine_result, Ok(Some(s)) if g.verif_snapshot().ok().as_ref() == Some(s));
+                                    accepted.push(json!({"variant": name, "same_effect_as_genuine": same}));
+                                }
+                                Ok(Err(e)) => {
+                                    let en = err_name(&e);
+                                    *errors.entry(en.clone()).or_default() += 1;
+                                    if g.verif_snapshot().ok().as_ref() != Some(&snap0) {
+                                        changed.push(json!({"variant": name, "err": en}));
+                                    }
+                                    if vi % genuine_every == 0 && genuine_result.is_ok() {
+                                        match catch_unwind(AssertUnwindSafe(|| g.process_incoming_message(gmsg.clone()))) {
+                                            Ok(Ok(_)) => genuine_ok += 1,
+                                            Ok(Err(e2)) => refused.push(json!({"variant": name, "err": en, "genuine_err": err_name(&e2)})),
+                                            Err(_) => panics.push(json!(format!("{name}:genuine_after"))),
+                                        }
+                                    }
+                                }
+                            }
+                        }
+                        Ok(json!({"n": total, "genuine": genuine_result.as_ref().map(|_| "ok".to_string()).unwrap_or_else(|e| err_name(e)), "errors": errors, "accepted": accepted, "panics": panics, "state_changed": changed, "genuine_refused": refused, "genuine_ok": genuine_ok}))
+                    }
+                    "join" | "join_tree" => {
+                        // Welcome (or the out-of-band tree) for a joiner
+                        let tree_key = op["tree"].as_str().map(|s| s.to_string());
+                        let gtree = match &tree_key { Some(t) => Some(self.trees.get(t).ok_or("no tree")?.clone()), None => None };
+                        let wkey = op["welcome"].as_str().unwrap_or(&key).to_string();
+                        let gw = self.msgs.get(&wkey).ok_or("no welcome")?.clone();
+                        let m = self.members.get(&who).ok_or("no such member")?;
+                        let join = |w: &[u8], t: Option<&Vec<u8>>| -> Result<Result<Vec<u8>, String>, ()> {
+                            let wm = match MlsMessage::from_bytes(w) { Ok(x) => x, Err(_) => return Ok(Err("decode".into())) };
+                            let tr = match t { Some(tb) => match ExportedTree::from_bytes(tb) { Ok(x) => Some(x.into_owned()), Err(_) => return Ok(Err("decode_tree".into())) }, None => None };
+                            catch_unwind(AssertUnwindSafe(|| m.client.join_group(tr, &wm, None).map(|(g, _)| g.verif_snapshot().unwrap_or_default()).map_err(|e| err_name(&e)))).map_err(|_| ())
+                        };
+                        let gres = join(&gw, gtree.as_ref());
+                        for (name, bytes) in variants.iter() {
+                            let r = if target == "join" { join(bytes, gtree.as_ref()) } else { join(&gw, Some(bytes)) };
+                            match r {
+                                Err(()) => panics.push(json!(name)),
+                                Ok(Err(e)) => { *errors.entry(e).or_default() += 1; }
+                                Ok(Ok(snap)) => {
+                                    let same = matches!(&gres, Ok(Ok(s)) if s == &snap);
+                                    accepted.push(json!({"variant": name, "same_effect_as_genuine": same}));
+                                }
+                            }
+                        }
+                        Ok(json!({"n": total, "genuine": match &gres { Ok(Ok(_)) => "ok".to_string(), Ok(Err(e)) => e.clone(), Err(()) => "PANIC".into() }, "errors": errors, "accepted": accepted, "panics": panics}))
+                    }
+                    "observe" | "observe_tree" => {
+                        // GroupInfo (or tree) handed to an outside observer
+                        let tree_key = op["tree"].as_str().map(|s| s.to_string());
+                        let gtree = match &tree_key { Some(t) => Some(self.trees.get(t).ok_or("no tree")?.clone()), None => None };
+                        let gikey = op["gi"].as_str().unwrap_or(&key).to_string();
+                        let ggi = self.msgs.get(&gikey).ok_or("no group info")?.clone();
+                        let mk = &self.mk_obs;
+                        let obs = |gi: &[u8], t: Option<&Vec<u8>>| -> Result<Result<Vec<u8>, String>, ()> {
+                            let gm = match MlsMessage::from_bytes(gi) { Ok(x) => x, Err(_) => return Ok(Err("decode".into())) };
+                            let tr = match t { Some(tb) => match ExportedTree::from_bytes(tb) { Ok(x) => Some(x.into_owned()), Err(_) => return Ok(Err("decode_tree".into())) }, None => None };
+                            catch_unwind(AssertUnwindSafe(|| mk(None, None).observe_group(gm, tr, None).map(|g| g.group_context().mls_encode_to_vec().unwrap_or_default()).map_err(|e| err_name(&e)))).map_err(|_| ())
+                        };
+                        let gres = obs(&ggi, gtree.as_ref());
+                        for (name, bytes) in variants.iter() {
+                            let r = if target == "observe" { obs(bytes, gtree.as_ref()) } else { obs(&ggi, Some(bytes)) };
+                            match r {
+                                Err(()) => panics.push(json!(name)),
+                                Ok(Err(e)) => { *errors.entry(e).or_default() += 1; }
+                                Ok(Ok(c)) => {
+                                    let same = matches!(&gres, Ok(Ok(s)) if s == &c);
+                                    accepted.push(json!({"variant": name, "same_effect_as_genuine": same}));
+                                }
+                            }
+                        }
+                        Ok(json!({"n": total, "genuine": match &gres { Ok(Ok(_)) => "ok".to_string(), Ok(Err(e)) => e.clone(), Err(()) => "PANIC".into() }, "errors": errors, "accepted": accepted, "panics": panics}))
+                    }
+                    _ => Err("bad sweep target".into()),
+                }
+            }
+            "ctx_dump" => {
+                let g = grp!();
+                let ctx = mls!(g.context().mls_encode_to_vec());
+                Ok(json!({"ctx": hex::encode(ctx), "mkey": hex::encode(g.verif_membership_key()), "epoch": g.current_epoch(), "idx": g.current_member_index()}))
+            }
+            "sigkey" => {
+                let m = self.members.get(&who).ok_or("no such member")?;
+                Ok(json!({"pk": hex::encode(m.identity.signature_key.as_bytes())}))
+            }
+            "sigverify" => {
+                use mls_rs_core::crypto::{CipherSuiteProvider, CryptoProvider};
+                let cs = mls_rs_crypto_openssl::OpensslCryptoProvider::default().cipher_suite_provider(self.suite).ok_or("nosuite")?;
+                let pk = mls_rs_core::crypto::SignaturePublicKey::from(hexd(&op["pk"]));
+                let ok = cs.verify(&pk, &hexd(&op["sig"]), &hexd(&op["data"])).is_ok();
+                Ok(json!({"valid": ok}))
+            }
+            "remac" => {
+                // insider: alter a public message (flip one bit at `bit`, counted from the END when
+                // `from_end` is set) and give it a valid membership tag again
+                let mut b = self.msgs.get(op["src"].as_str().unwrap_or("")).ok_or("no message")?.clone();
+                let bit = op["bit"].as_u64().unwrap_or(0) as usize;
+                let pos = if op["from_end"].as_bool().unwrap_or(false) { b.len() * 8 - 1 - bit } else { bit };
+                if pos / 8 < b.len() {
+                    b[pos / 8] ^= 1 << (pos % 8);
+                }
+                let out = mls!(grp!().verif_remac(&b));
+                self.msgs.insert(id, out);
+                Ok(json!({}))
+            }
+            "preset" => {
+                grp!().verif_set_commit_preset(op["preset"].as_str().unwrap_or("none"));
+                Ok(json!({}))
+            }
             "clear_proposals" => {
                 grp!().clear_proposal_cache();
                 Ok(json!({}))
@@ -535,8 +737,20 @@ impl<C: MlsConfig, E: ExternalMlsConfig + Clone> World<C, E> {
                 let to = op["to"].as_str().unwrap_or("").to_string();
                 let msg = self.msg(op["msg"].as_str().unwrap_or(""))?;
                 let g = self.members.get_mut(&to).ok_or("no such member")?.group.as_mut().ok_or("NoGroup")?;
+                // roster BEFORE processing: the sender is a member of the epoch the message was made in
+                let names: Vec<(u32, String)> = g.roster().members_iter().map(|mm| (mm.index, mm.signing_identity.credential.as_basic().map(|b| String::from_utf8_lossy(&b.identifier).to_string()).unwrap_or_default())).collect();
                 let r = mls!(g.process_incoming_message(msg));
-                Ok(self.describe(&r))
+                let mut d = self.describe(&r);
+                let idx = match &r {
+                    ReceivedMessage::ApplicationMessage(a) => Some(a.sender_index),
+                    ReceivedMessage::Commit(c) if !c.is_external => Some(c.committer),
+                    ReceivedMessage::Proposal(p) => match p.sender { mls_rs::group::ProposalSender::Member(i) => Some(i), _ => None },
+                    _ => None,
+                };
+                if let Some(i) = idx {
+                    d["sender_name"] = json!(names.iter().find(|(k, _)| *k == i).map(|(_, n)| n.clone()));
+                }
+                Ok(d)
             }
             "app" => {
                 let msg = mls!(grp!().encrypt_application_message(&hexd(&op["data"]), aad));
@@ -767,7 +981,7 @@ pub fn run_world<C: MlsConfig, E: ExternalMlsConfig + Clone + 'static>(script: &
         if let Some(b) = before {
             rec["snap_before"] = json!(b);
         }
-        if let Some(m) = world.members.get(&subject) {
+        if let Some(m) = world.members.get(&subject).filter(|_| op["op"] != "sweep") {
             let c = m.ctl.lock().unwrap();
             if !c.log.is_empty() {
                 rec["storage"] = json!(c.log);
